@@ -27,6 +27,7 @@ THEOREMS = [P + t for t in (
 
 KEY_MIXED = "Control mixed int+float stack at one step"
 KEY_CHAIN_ORDER = "ChainControl stacked controls for one site and step"
+KEY_MIXED_DROPPED = "Control mixed int+float stack: a control does not act"
 
 
 @contextlib.contextmanager
@@ -667,37 +668,98 @@ def oracle_single(case):
             return True, "tie: not judged"
         land.append((post, k, a, kind, float(key), idx))
 
-    def acting(post, k):
-        """controls of one step and side: insertion order; controls given by (different) float
-        times act chronologically (a control acts at its stated time)"""
+    either = case.get("mixed") == "either"
+
+    def groups(post, k):
+        """candidate orders of the controls of one step and side.  Normally exactly one: insertion
+        order, controls given by (different) float times chronologically.  With case["mixed"] ==
+        "either" a group holding int- AND float-keyed controls may act float-part-first or
+        int-part-first (the known order finding is not judged) - but every control must act."""
         l = [x for x in land if x[0] == post and x[1] == k]
-        if l and all(x[3] == "f" for x in l):
-            l = sorted(l, key=lambda x: (x[4], x[5]))
-        return [x[2] for x in l]
-    v = rho.reshape(-1).astype(complex)
-    want = []
-    for k in range(n + 1):
-        for a in acting(False, k):
-            v = a @ v
-        want.append(v.copy())
-        if k == n:
-            break
-        for a in acting(True, k):
-            v = a @ v
-        v = u @ v
+        fl = sorted([x for x in l if x[3] == "f"], key=lambda x: (x[4], x[5]))
+        it = [x for x in l if x[3] == "i"]
+        if not it:
+            return [[x[2] for x in fl]]
+        if not fl or not either:
+            return [[x[2] for x in l]]
+        return [[x[2] for x in fl + it], [x[2] for x in it + fl]]
+
+    import itertools
+    slots = [(post, k) for k in range(n + 1) for post in (False, True)]
+    cands = [groups(post, k) for (post, k) in slots]
     if not rec:
-        if len(dyn.states) != 1:
-            return False, "record_all=False returned %d states" % len(dyn.states)
-        if not close(np.array(dyn.states[0]).reshape(-1), want[n], 1e-8):
-            return False, ("final state (record_all=False, t=%g) differs from the evolution with all pre "
-                           "and post controls applied" % (start + n * dt))
-        return True, "ok"
-    if len(dyn.states) != n + 1:
-        return False, "number of recorded states %d, expected %d" % (len(dyn.states), n + 1)
-    for k in range(n + 1):
-        if not close(np.array(dyn.states[k]).reshape(-1), want[k], 1e-8):
-            return False, ("recorded state %d (t=%g) differs from the evolution with the controls "
-                           "applied at their step, side and in order" % (k, start + k * dt))
+        got = [np.array(s).reshape(-1) for s in dyn.states]
+    else:
+        got = [np.array(s).reshape(-1) for s in dyn.states]
+    nwant = (n + 1) if rec else 1
+    if len(got) != nwant:
+        return False, "number of recorded states %d, expected %d" % (len(got), nwant)
+    first_bad = None
+    for choice in itertools.islice(itertools.product(*cands), 64):
+        order = dict(zip(slots, choice))
+        v = rho.reshape(-1).astype(complex)
+        want = []
+        for k in range(n + 1):
+            for a in order[(False, k)]:
+                v = a @ v
+            want.append(v.copy())
+            if k == n:
+                break
+            for a in order[(True, k)]:
+                v = a @ v
+            v = u @ v
+        if not rec:
+            bad = None if close(got[0], want[n], 1e-8) else n
+        else:
+            bad = next((k for k in range(n + 1) if not close(got[k], want[k], 1e-8)), None)
+        if bad is None:
+            return True, "ok"
+        if first_bad is None:
+            first_bad = bad
+    if either:
+        return False, ("recorded state %d (t=%g) equals the evolution for NEITHER order of the int- and "
+                       "float-keyed controls of one step: a control does not act (or acts twice)"
+                       % (first_bad, start + first_bad * dt))
+    if not rec:
+        return False, ("final state (record_all=False, t=%g) differs from the evolution with all pre "
+                       "and post controls applied" % (start + n * dt))
+    return False, ("recorded state %d (t=%g) differs from the evolution with the controls "
+                   "applied at their step, side and in order" % (first_bad, start + first_bad * dt))
+
+
+def oracle_get_controls_mixed(case):
+    """Control.get_controls for int- and float-keyed controls of one side landing on one step: the
+    returned operator is the product of ALL of them - int part then float part or the other way
+    round (the order is the known finding, not judged) - never a product that misses one."""
+    d, dt, start, step = case["d"], case["dt"], case["start"], case["step"]
+    calls = [(c["post"], c["kind"], c["key"], unjmat(c["op"]), "") for c in case["calls"]]
+    c = make_control(d, calls)
+    with quiet():
+        got = c.get_controls(int(step), dt=dt, start_time=start)
+    for side, post in ((0, False), (1, True)):
+        land = []
+        for idx, (p_, kind, key, a, _x) in enumerate(calls):
+            if bool(p_) != post:
+                continue
+            k = int(key) if kind == "i" else nearest_step(float(key), start, dt)
+            if k is None:
+                return True, "tie: not judged"
+            if k == step:
+                land.append((kind, float(key), idx, a))
+        fl = [x[3] for x in sorted([x for x in land if x[0] == "f"], key=lambda x: (x[1], x[2]))]
+        it = [x[3] for x in land if x[0] == "i"]
+        if not land:
+            if got[side] is not None:
+                return False, "%s control returned although nothing lands on the step" % ("post" if post else "pre")
+            continue
+        if got[side] is None:
+            return False, "%s control is None although %d controls land on the step" % (
+                "post" if post else "pre", len(land))
+        prod = lambda ops: reduce(lambda acc, a: a @ acc, ops, np.eye(d * d, dtype=complex))
+        if not any(close(got[side], prod(o), 1e-10) for o in (fl + it, it + fl)):
+            return False, ("%s control is not the product of all %d controls landing on the step in either "
+                           "order of the int- and float-keyed part: a control does not act"
+                           % ("post" if post else "pre", len(land)))
     return True, "ok"
 
 
@@ -752,6 +814,7 @@ def oracle_chain_get(case):
 
 
 ORACLES = {"compute_dynamics": oracle_single, "PtTebd": oracle_chain,
+           "Control.get_controls": oracle_get_controls_mixed,
            "ChainControl.get_single_site_controls": oracle_chain_get}
 
 
@@ -837,6 +900,9 @@ def search(res, rng=None):
             if first == "f":
                 calls = [calls[1], calls[0]]
             run(KEY_MIXED, single_case(rng, 2, 2, 0.1, 0.0, calls))
+    # -- the same stacks, insensitive to the order finding but sensitive to a control that does not
+    #    act: non-commuting, non-unitary maps; the result must be one of the two orders --------------
+    search_mixed_all_act(res, rng)
     # -- chains --------------------------------------------------------------------------------
     for post in (False, True):
         for m in (2, 3):
@@ -882,6 +948,43 @@ def search(res, rng=None):
             if seen.setdefault(tag, (cl[1], cl[2])) == (cl[1], cl[2]):
                 keep.append(cl)
         run("Control random schedule (one key per step and side)", single_case(rng, 2, n, dt, start, keep))
+
+
+def search_mixed_all_act(res, rng=None):
+    """Oracle usable on its own (C03/C07 hook): int- and float-keyed controls of one side on one
+    step - whatever their order (known finding), each of them acts exactly once."""
+    rng = rng or random.Random(res.seed)
+
+    def op():
+        # non-unitary, non-trace-preserving, far from the identity and from each other
+        return rand_superop(rng, 2, "nontp", False, gentle=True)[0]
+
+    def run(case):
+        ok, detail = ORACLES[case["api"]](case)
+        if not ok:
+            res.fail(KEY_MIXED_DROPPED, dict(case, how=detail))
+
+    for post in (False, True):
+        for (n, stp, dt, start) in ((2, 1, 0.1, 0.0), (1, 0, 0.25, 0.5), (3, 3, 0.2, -0.3), (0, 0, 0.1, 0.0)):
+            if post and stp == n:
+                continue                       # a post control of the last step is never observable
+            t = float(start + stp * dt)
+            for first in ("i", "f"):
+                for stack in (1, 2):
+                    calls = [(post, "i", stp, op(), "") for _ in range(stack)] + [(post, "f", t, op(), "")]
+                    if first == "f":
+                        calls = calls[::-1]
+                    for rec in ((True, False) if not post or stp < n else (True,)):
+                        base = single_case(rng, 2, n, dt, start, calls)
+                        run(dict(base, mixed="either", record_all=rec))
+                    run({"api": "Control.get_controls", "d": 2, "dt": dt, "start": start, "step": stp,
+                         "calls": single_case(rng, 2, n, dt, start, calls)["calls"]})
+    # a float time that is not the grid time itself
+    for post in (False, True):
+        calls = [(post, "f", 0.12, op(), ""), (post, "i", 1, op(), ""), (post, "f", 0.08, op(), "")]
+        run(dict(single_case(rng, 2, 2, 0.1, 0.0, calls), mixed="either"))
+        run({"api": "Control.get_controls", "d": 2, "dt": 0.1, "start": 0.0, "step": 1,
+             "calls": single_case(rng, 2, 2, 0.1, 0.0, calls)["calls"]})
 
 
 def replay_case(res, path):
